@@ -5,7 +5,7 @@ from lib import gen, sysrun
 from lib.sysrun import Case
 
 LEVEL = "proof"
-CHECKER = "lake build KalignModel.Props.C08Opt && lake env lean KalignModel/Audit/C08.lean"
+CHECKER = "lake build KalignModel.Props.C08All && lake env lean KalignModel/Audit/C08.lean"
 
 
 def theorems():
@@ -14,6 +14,9 @@ def theorems():
         p = os.path.join(C.LEAN, "KalignModel", "Props", f)
         if os.path.exists(p):
             out += [l.strip() for l in open(p) if l.strip() and not l.startswith("#")]
+    p = os.path.join(C.LEAN, "KalignModel", "Props", "C07Soft.theorems")
+    if os.path.exists(p):
+        out += [l.strip() for l in open(p) if l.strip().startswith("Kalign.C08Soft") or "dyadic" in l]
     return out
 
 
@@ -23,7 +26,7 @@ def run(ctx):
     ctx.cov["_rule"] = ("all-identical inputs: nucleotides with IUPAC codes, all-N, proteins with B/Z/X, all-X, homopolymers and short repeats, lengths 1..5000, 2..500 copies, every "
                         "admissible type, threads 1..16, both APIs; oracle: every output row equals the input string; non-trivial = distinct (string, copies, type) with length >= 2")
     thms = theorems()
-    ok = C.lean_obligations(ctx, "C08", thms, module="C08Opt") if thms else False
+    ok = C.lean_obligations(ctx, "C08", thms, module="C08All") if thms else False
     if not thms:
         ctx.obligations.append(dict(name="Props/C08 theorems", ok=False, why="theorem list missing"))
     kvh = C.build_harness("asan")
